@@ -8,7 +8,7 @@ src = build.src().rstrip('/') if hasattr(build, 'src') else '/repo/src'
 import os
 src = os.path.join(build.REPO, 'src')
 for j in K.all_jobs():
-    if sub in j.tag and (j.contract.ensures or getattr(j.contract,'rtc_ensures',None)) and (j.lang == 'cy' or getattr(j.contract,'vectors',False)):
+    if sub in j.tag and (j.contract.ensures or getattr(j.contract,'rtc_ensures',None)) and (j.lang == 'cy' or getattr(j.contract,'vectors',False) or getattr(j.contract,'rtc_py',False)):
         r = rtc._rtc_worker((j, src, cnt, 0, ()))
         v = r.pop('violated')
         print(j.tag, {k: r[k] for k in ('cases','evaluated','holds','nonterminating','raised','inapplicable','wall') if k in r}, 'skipped:', list(r['skipped'].values())[:2], 'ERR' if r['error'] else '')
